@@ -14,9 +14,10 @@ pub type V = VArc<1>;
 pub type V2 = VArc<2>;
 
 pub const SLOTS: usize = rt::cfg::DEBT_SLOT_CNT;
-/// C08: absolute cap on the caller's own steps in one load (generous against refactoring; the
+/// C08: absolute cap on the caller's own steps in one load (generous against refactoring and the
+/// node-list walk of a first use with up to 4 nodes: observed maximum 25; the
 /// unmodified fast path takes 4-5, the fallback about 12, plus the slot scan).
-pub const LOAD_CAP: u64 = 3 * SLOTS as u64 + 24;
+pub const LOAD_CAP: u64 = 3 * SLOTS as u64 + 40;
 /// C09: cap on the caller's own steps in one write-side call (the unmodified walk is at most
 /// 14 steps per node plus one help; harnesses have at most 5 nodes and rcu/cas retry a few times).
 pub const WRITE_CAP: u64 = 60 + 40 * 6;
